@@ -20,13 +20,13 @@ import (
 //                        and every element is descended into
 // A mutation is applied to a fresh clone of the root.
 
-type step struct {
+type pstep struct {
 	fd  protoreflect.FieldDescriptor
 	idx int // >= 0: element of a repeated field
 }
 
 type mutation struct {
-	path  []step
+	path  []pstep
 	fd    protoreflect.FieldDescriptor // the field changed (inside the message addressed by path)
 	op    string
 	isNil bool // clears a populated message field (used for the pair enumeration)
@@ -52,7 +52,7 @@ func (mu *mutation) pathString(withIdx bool) string {
 func (mu *mutation) String() string { return mu.pathString(true) + ":" + mu.op }
 func (mu *mutation) sig() string    { return mu.pathString(false) + ":" + mu.op }
 
-func locate(root protoreflect.Message, path []step) protoreflect.Message {
+func locate(root protoreflect.Message, path []pstep) protoreflect.Message {
 	m := root
 	for _, s := range path {
 		v := m.Get(s.fd)
@@ -87,9 +87,9 @@ type enumOpts struct {
 
 func enumerate(root proto.Message, o enumOpts) []*mutation {
 	var out []*mutation
-	var walk func(m protoreflect.Message, path []step)
-	walk = func(m protoreflect.Message, path []step) {
-		cp := func() []step { return append([]step(nil), path...) }
+	var walk func(m protoreflect.Message, path []pstep)
+	walk = func(m protoreflect.Message, path []pstep) {
+		cp := func() []pstep { return append([]pstep(nil), path...) }
 		add := func(fd protoreflect.FieldDescriptor, op string, isNil bool, f func(protoreflect.Message)) {
 			out = append(out, &mutation{path: cp(), fd: fd, op: op, isNil: isNil, apply: f})
 		}
@@ -140,7 +140,7 @@ func enumerate(root proto.Message, o enumOpts) []*mutation {
 				}
 				if isMsg && (o.maxDepth == 0 || len(path) < o.maxDepth) {
 					for j := 0; j < n; j++ {
-						walk(l.Get(j).Message(), append(cp(), step{fd, j}))
+						walk(l.Get(j).Message(), append(cp(), pstep{fd, j}))
 					}
 				}
 			case fd.Kind() == protoreflect.MessageKind || fd.Kind() == protoreflect.GroupKind:
@@ -148,7 +148,7 @@ func enumerate(root proto.Message, o enumOpts) []*mutation {
 					add(fd, "nil", true, func(x protoreflect.Message) { x.Clear(fd) })
 					add(fd, "empty", false, func(x protoreflect.Message) { x.Set(fd, x.NewField(fd)) })
 					if o.maxDepth == 0 || len(path) < o.maxDepth {
-						walk(m.Get(fd).Message(), append(cp(), step{fd, -1}))
+						walk(m.Get(fd).Message(), append(cp(), pstep{fd, -1}))
 					}
 				} else if o.addAbsent {
 					add(fd, "absent->empty", false, func(x protoreflect.Message) { x.Set(fd, x.NewField(fd)) })
